@@ -7,9 +7,11 @@ import (
 	"io"
 	"os"
 	"os/exec"
+	"runtime"
 	"strconv"
 	"strings"
 	"sync"
+	"syscall"
 	"time"
 )
 
@@ -36,6 +38,7 @@ type SupOpts struct {
 	Env         []string      // extra environment
 	Mode        string        // passed to the child as VERIF_CHILD_MODE
 	Stop        func() bool   // polled between cases by the supervisor; true = stop feeding (budget)
+	Deadline    time.Time     // if set, children stop taking new cases after it (Supervise then returns < N)
 }
 
 func IsChild() bool { return os.Getenv("VERIF_CHILD") == "1" }
@@ -50,7 +53,14 @@ func ChildLoop(fn func(i int) string) {
 		stride = 1
 	}
 	w := bufio.NewWriterSize(os.Stdout, 1<<16)
+	var deadline time.Time
+	if d, err := strconv.ParseInt(os.Getenv("VERIF_CHILD_DEADLINE"), 10, 64); err == nil && d > 0 {
+		deadline = time.Unix(0, d)
+	}
 	for i := start; i < n; i += stride {
+		if !deadline.IsZero() && time.Now().After(deadline) {
+			break // budget used up: the supervisor sees fewer completed cases than N
+		}
 		fmt.Fprintf(w, "B %d\n", i)
 		w.Flush()
 		res := fn(i)
@@ -100,6 +110,9 @@ func Supervise(o SupOpts, cb func(i int, res string, crash *Crash)) int {
 		wg.Add(1)
 		go func(w int) {
 			defer wg.Done()
+			// Pdeathsig is delivered when the creating *thread* exits, so pin this goroutine to its thread.
+			runtime.LockOSThread()
+			defer runtime.UnlockOSThread()
 			next := w
 		restart:
 			for next < o.N {
@@ -116,6 +129,10 @@ func Supervise(o SupOpts, cb func(i int, res string, crash *Crash)) int {
 				cmd.Env = append(os.Environ(), "VERIF_CHILD=1", "VERIF_CHILD_MODE="+o.Mode,
 					"VERIF_CHILD_START="+strconv.Itoa(next), "VERIF_CHILD_STRIDE="+strconv.Itoa(o.Workers), "VERIF_CHILD_N="+strconv.Itoa(o.N))
 				cmd.Env = append(cmd.Env, o.Env...)
+				if !o.Deadline.IsZero() {
+					cmd.Env = append(cmd.Env, "VERIF_CHILD_DEADLINE="+strconv.FormatInt(o.Deadline.UnixNano(), 10))
+				}
+				cmd.SysProcAttr = &syscall.SysProcAttr{Pdeathsig: syscall.SIGKILL} // no orphans if the supervisor dies
 				stderr := &tailBuf{}
 				cmd.Stderr = stderr
 				stdout, err := cmd.StdoutPipe()
